@@ -2,10 +2,155 @@
 
 package proxy
 
-import "fmt"
+// Fault actions for C04 (and the full scenario of C08): stream breaks and reconnections.
 
-func (e *vfRouteExec) enabledFaults() []string { return nil }
+import (
+	"fmt"
+	"strconv"
+	"testing"
+	"time"
+
+	vrt "github.com/temporalio/s2s-proxy/internal/verifrt"
+)
+
+// needsOpen: the source shard has no live stream towards the proxy (never opened, or the last
+// incarnation broke / was ended by the proxy).
+func (s *vfSrc) needsOpen() bool {
+	if len(s.incoming) == 0 {
+		return true
+	}
+	in := s.incoming[len(s.incoming)-1]
+	return in.broken || in.returned
+}
+
+func (e *vfRouteExec) faultKind(k string) bool {
+	if len(e.sc.FaultKinds) == 0 {
+		return true
+	}
+	for _, x := range e.sc.FaultKinds {
+		if x == k {
+			return true
+		}
+	}
+	return false
+}
+
+func (e *vfRouteExec) enabledFaults() []string {
+	if e.faults >= e.sc.MaxFaults {
+		return nil
+	}
+	var out []string
+	for _, t := range e.tgt {
+		if c := t.cur(); c != nil && !c.broken && !c.returned && e.faultKind("breakT") {
+			out = append(out, fmt.Sprintf("breakT:%d", t.idx))
+		}
+	}
+	for _, s := range e.src {
+		if p := s.pull(); p != nil && p.alive() && !s.needsOpen() && e.faultKind("breakS") {
+			out = append(out, fmt.Sprintf("breakS:%d", s.idx))
+		}
+		if !s.needsOpen() && e.faultKind("breakSin") {
+			out = append(out, fmt.Sprintf("breakSin:%d", s.idx))
+		}
+	}
+	return out
+}
 
 func (e *vfRouteExec) applyFault(a string, f []string) error {
-	return fmt.Errorf("unknown action %s", a)
+	if len(f) < 2 {
+		return fmt.Errorf("unknown action %s", a)
+	}
+	n, _ := strconv.Atoi(f[1])
+	switch f[0] {
+	case "breakT":
+		t := e.tgt[n-1]
+		if t.cur() == nil {
+			return fmt.Errorf("action %s not enabled", a)
+		}
+		e.faults++
+		e.logf("T%d#%d stream breaks", t.idx, len(t.incoming)-1)
+		t.cur().breakNow()
+	case "breakS":
+		s := e.src[n-1]
+		if s.pull() == nil {
+			return fmt.Errorf("action %s not enabled", a)
+		}
+		e.faults++
+		e.logf("S%d pull stream #%d breaks", s.idx, len(s.pulls)-1)
+		s.pull().breakNow()
+	case "breakSin":
+		s := e.src[n-1]
+		if len(s.incoming) == 0 {
+			return fmt.Errorf("action %s not enabled", a)
+		}
+		e.faults++
+		e.logf("S%d#%d stream (initiated by the source shard) breaks", s.idx, len(s.incoming)-1)
+		s.incoming[len(s.incoming)-1].breakNow()
+	default:
+		return fmt.Errorf("unknown action %s", a)
+	}
+	return nil
+}
+
+func vfFaultScenarios(tier string) []*vfRouteScenario {
+	var out []*vfRouteScenario
+	add := func(name string, ns, nt int, scripts [][]vfBatch, maxWM, faults int, kinds ...string) {
+		out = append(out, &vfRouteScenario{Name: name, NS: ns, NT: nt, Scripts: scripts, InitHigh: 5, MaxWM: maxWM, MaxAdv: 0, MaxRepeat: 0,
+			InOrder: true, MaxFaults: faults, FaultKinds: kinds})
+	}
+	two := [][]vfBatch{{
+		{IDs: []int64{10}, Tgt: []int{1}, High: 11},
+		{IDs: []int64{11}, Tgt: []int{2}, High: 12},
+	}}
+	add("1x2-breakT", 1, 2, two, 0, 1, "breakT")
+	add("1x2-breakS", 1, 2, two, 0, 1, "breakS", "breakSin")
+	add("1x1-any-fault", 1, 1, [][]vfBatch{{
+		{IDs: []int64{10}, Tgt: []int{1}, High: 11},
+		{IDs: []int64{11}, Tgt: []int{1}, High: 12},
+	}}, 1, 1)
+	if tier == "thorough" {
+		add("1x2-two-faults", 1, 2, two, 0, 2)
+		add("1x2-multi-fault", 1, 2, [][]vfBatch{{
+			{IDs: []int64{10, 11}, Tgt: []int{1, 2}, High: 12},
+			{IDs: []int64{12}, Tgt: []int{2}, High: 13},
+		}}, 1, 1)
+		add("2x2-fault", 2, 2, [][]vfBatch{
+			{{IDs: []int64{10}, Tgt: []int{1}, High: 11}, {IDs: []int64{11}, Tgt: []int{2}, High: 12}},
+			{{IDs: []int64{100}, Tgt: []int{2}, High: 101}},
+		}, 0, 1)
+	}
+	return out
+}
+
+func TestVerifC04(t *testing.T) {
+	if vrt.IsWorker() {
+		vfRouteWorker(t)
+		return
+	}
+	res := vrt.NewResult("C04", "model_checking")
+	defer func() {
+		if err := res.Write(); err != nil {
+			t.Fatal(err)
+		}
+	}()
+	props := map[string]bool{"C04": true}
+	if p := vrt.ReplayPath(); p != "" {
+		vfRouteReplay(t, p, props, res)
+		return
+	}
+	pool := vrt.NewPool("TestVerifC04", vrt.Workers(), 60*time.Second)
+	deadline := vrt.Deadline()
+	st := &vfBFSStats{Outcomes: map[string]bool{}, Exhaustive: true}
+	var names []string
+	for _, sc := range vfFaultScenarios(vrt.Tier()) {
+		before := st.States
+		vfRouteBFS(t, pool, sc, vfRouteDepth(vrt.Tier()), true, props, res, deadline, st)
+		names = append(names, fmt.Sprintf("%s(states=%d)", sc.Name, st.States-before))
+		if time.Now().After(deadline) {
+			st.Exhaustive = false
+			break
+		}
+	}
+	vfRouteReport(res, st, names, pool)
+	res.Assume("after a reconnect the source resends every task with id >= the highest acknowledgement it has received (Temporal's sender resumes from the acknowledged level); a reconnecting target starts with an empty tracker")
 }
